@@ -84,13 +84,14 @@ def _sizes(tier):
 def _angles(tier):
     if tier == 'quick':
         # one angle per quadrant plus the axis-aligned and nearly-aligned ones
-        lst = [(0.0, 'deg', 'quantity'), (30.0, 'rad', 'quantity'), (123.4, 'deg', 'angle'),
+        lst = [(0.0, 'deg', 'quantity'), (30.0, 'arcmin', 'quantity'), (123.4, 'deg', 'angle'),
                (90.0, 'deg', 'quantity'), (0.001, 'deg', 'quantity'), (-60.0, 'rad', 'quantity')]
     else:
         lst = [(0.0, 'deg', 'quantity'), (30.0, 'rad', 'quantity'), (45.0, 'deg', 'angle'),
                (60.0, 'deg', 'quantity'), (90.0, 'rad', 'angle'), (135.0, 'deg', 'quantity'),
                (180.0, 'deg', 'quantity'), (36.87, 'deg', 'quantity'), (0.001, 'deg', 'quantity'),
-               (89.999, 'rad', 'quantity'), (-60.0, 'deg', 'quantity'), (123.4, 'deg', 'angle'), (300.0, 'rad', 'quantity')]
+               (89.999, 'rad', 'quantity'), (-60.0, 'deg', 'quantity'), (123.4, 'deg', 'angle'), (300.0, 'rad', 'quantity'),
+               (30.0, 'arcmin', 'quantity'), (45.0, 'arcsec', 'angle')]
     return [(d, K.angle_spec(d, u, k)) for (d, u, k) in lst]
 
 
